@@ -312,7 +312,7 @@ def run_rest(case):
         return "session-results after stepping to the stop time cover %r, expected %r" % (sorted(float(k) for k in sr), gridS)
     return None
 
-case = {'start': 1.0, 'stop': 4.0, 'dt': 0.25, 'base_rate': 1.0, 'scen': {'A': {'rate': 1.0, 'pts': [[0.0, 2.0], [10.0, 1.0]]}, 'C': {'rate': 1.0, 'pts': [[0.0, 0.0], [10.0, 4.0]], 'runspecs': {'starttime': 2.0, 'stoptime': 5.0, 'dt': 0.25}}, 'B': {'pts': [[0.0, 2.0], [10.0, 4.0]], 'runspecs': {'starttime': 2.0, 'stoptime': 5.0, 'dt': 0.5}}}, 'base_constants': 4.0, 'steps': {2: ('A', 5.0), 0: ('A', 2.0)}}
+case = {'start': 0.0, 'stop': 3.0, 'dt': 0.5, 'base_rate': 2.0, 'scen': {'B': {}, 'A': {'rate': 1.0, 'pts': [[0.0, 2.0], [10.0, 4.0]]}}, 'base_constants': None, 'steps': {2: ('B', 2.0)}}
 bad = run(case)
 print("case:", case)
 print("FAIL: " + bad if bad else "PASS")
